@@ -312,11 +312,9 @@ def _task(task):
 
 
 def run(tier, seed):
-    depth = 1 if tier == "quick" else 2
-    exprs = expressions(depth)
-    if depth == 2:
-        # depth 2 has ~10^5 expressions; keep every depth-1 expression and every depth-2 expression whose operands are
-        # atoms or unary forms (bound stated in the evidence)
+    # quick: every depth-1 expression plus the depth-2 expressions whose operands are atoms or unary forms;
+    # thorough: the complete depth-2 closure of the grammar (~1.6e5 expressions)
+    if tier == "quick":
         d1 = expressions(1)
         unary = [e for e in d1 if e.startswith(("-(", "sqrt("))] + ATOMS
         d2 = []
@@ -327,7 +325,9 @@ def run(tier, seed):
             d2.append("-(%s)" % e)
             d2.append("sqrt(abs(%s))" % e)
         exprs = list(dict.fromkeys(d1 + d2))
-    chunks = [exprs[i::16] for i in range(16)]
+    else:
+        exprs = expressions(2)
+    chunks = [exprs[i::64] for i in range(64)]
     maxlen_calls = 3 if tier == "quick" else 4
     tasks = [("words", b, 4) for b in BASES]
     tasks += [("calls", w, first, maxlen_calls) for w in wrappers_for_calls() for first in range(len(arg_menu()))]
